@@ -770,7 +770,8 @@ impl Swift {
         let output_path = Path::new(output_folder).join("Codable.swift");
 
         if let Ok(buf) = fs::read(&output_path) {
-            if buf == output_string.as_bytes() {
+            // `write_codable` terminates the contents with a newline.
+            if buf.strip_suffix(b"\n") == Some(output_string.as_bytes()) {
                 return Ok(());
             }
         }
